@@ -107,9 +107,15 @@ extern "C" void h_tsf_ctor()
 extern "C" void h_tsf_format()
 {
   // state as the constructor leaves it for "<part1>%Q?s<part2>" (h_tsf_ctor decides that), parts rendered by the hook
-  new (&g_arg.s) std::string("");
-  TimestampFormatter* t = new (&g_t.t) TimestampFormatter(std::move(g_arg.s), Timezone::GmtTime);
-  new (&g_r1.s) std::string("AB"); new (&g_r2.s) std::string("YZ");
+  // (members laid out one by one: the constructor is the subject of h_tsf_ctor)
+  TimestampFormatter* t = &g_t.t;
+  new (&t->_time_format) std::string();
+  new (&t->_formatted_date) fmtquill::basic_memory_buffer<char, 32>();
+  new (&t->_strftime_part_1) StringFromTime(); new (&t->_strftime_part_2) StringFromTime();
+  t->_timestamp_timezone = Timezone::GmtTime;
+  // the two rendered parts: string objects written field by field (lengths are constants for symbolic execution)
+  g_r1.s._M_dataplus._M_p = g_r1.s._M_local_buf; g_r1.s._M_local_buf[0] = 'A'; g_r1.s._M_local_buf[1] = 'B'; g_r1.s._M_local_buf[2] = 0; g_r1.s._M_string_length = 2;
+  g_r2.s._M_dataplus._M_p = g_r2.s._M_local_buf; g_r2.s._M_local_buf[0] = 'Y'; g_r2.s._M_local_buf[1] = 'Z'; g_r2.s._M_local_buf[2] = 0; g_r2.s._M_string_length = 2;
 #ifdef KIND
   uint32_t kind = KIND;                                    // concrete per query
 #else
